@@ -563,6 +563,46 @@ func ruleR13k(c *Ctx, r *Report) {
 			}
 			// is it written outside the package initialiser?
 			written := ""
+			// fields its address is kept in (`&T{…, &g}`, `t.f = &g`): a store through a load of such a
+			// field writes the variable
+			kept := map[*types.Var]bool{}
+			for _, fn := range c.RepoFuncs() {
+				for _, gfn := range withAnon(fn) {
+					eachInstr(gfn, func(in ssa.Instruction) {
+						if st, ok := in.(*ssa.Store); ok && st.Val == ssa.Value(g) {
+							if fa, ok := st.Addr.(*ssa.FieldAddr); ok {
+								if fv := fieldVar(fa.X.Type(), fa.Field); fv != nil {
+									kept[fv] = true
+								}
+							}
+						}
+					})
+				}
+			}
+			throughKept := func(addr ssa.Value) bool {
+				v := addr
+				for i := 0; i < 16 && len(kept) > 0; i++ {
+					switch x := v.(type) {
+					case *ssa.FieldAddr:
+						v = x.X
+					case *ssa.IndexAddr:
+						v = x.X
+					case *ssa.UnOp:
+						if x.Op != token.MUL {
+							return false
+						}
+						if fa, ok := x.X.(*ssa.FieldAddr); ok {
+							if fv := fieldVar(fa.X.Type(), fa.Field); fv != nil && kept[fv] {
+								return true
+							}
+						}
+						v = x.X
+					default:
+						return false
+					}
+				}
+				return false
+			}
 			for _, fn := range c.RepoFuncs() {
 				if fn.Name() == "init" || strings.HasPrefix(fn.Name(), "init#") {
 					continue
@@ -573,6 +613,8 @@ func ruleR13k(c *Ctx, r *Report) {
 						case *ssa.Store:
 							if addrRoot(x.Addr) == ssa.Value(g) {
 								written = c.Pos(x.Pos())
+							} else if _, direct := x.Addr.(*ssa.FieldAddr); direct && throughKept(x.Addr) {
+								written = c.Pos(x.Pos())
 							}
 						case *ssa.MapUpdate:
 							if addrRoot(x.Map) == ssa.Value(g) {
@@ -581,6 +623,30 @@ func ruleR13k(c *Ctx, r *Report) {
 						case ssa.CallInstruction:
 							// &global (or a field of it) handed to a repository function that stores through that parameter
 							cc := x.Common()
+							// handed, whole or as a slice, to something that fills what it is given: copy(dst, …),
+							// binary.*.PutUint64(b, …), varint.PutUvarint(b, …), io.ReadFull(r, b), r.Read(b)
+							fills := false
+							if b, isB := cc.Value.(*ssa.Builtin); isB {
+								fills = b.Name() == "copy" && len(cc.Args) > 0 && addrRoot(sliceBase(cc.Args[0])) == ssa.Value(g)
+							} else if cf := calleeFunc(cc); cf != nil && (cf.Pkg() == nil || !isRepoPkg(cf.Pkg().Path())) || cc.IsInvoke() {
+								name := ""
+								if cc.IsInvoke() {
+									name = cc.Method.Name()
+								} else if cf := calleeFunc(cc); cf != nil {
+									name = cf.Name()
+								}
+								if strings.HasPrefix(name, "Put") || strings.HasPrefix(name, "Read") || strings.HasPrefix(name, "Fill") || strings.HasPrefix(name, "Encode") || strings.HasPrefix(name, "Append") {
+									for _, a := range cc.Args {
+										if _, isSlice := a.Type().Underlying().(*types.Slice); isSlice && addrRoot(sliceBase(a)) == ssa.Value(g) {
+											fills = true
+										}
+									}
+								}
+							}
+							if fills {
+								written = c.Pos(x.Pos())
+								return
+							}
 							f, _ := cc.Value.(*ssa.Function)
 							if f == nil || f.Blocks == nil || f.Pkg == nil || !isRepoPkg(f.Pkg.Pkg.Path()) {
 								return
@@ -609,6 +675,18 @@ func ruleR13k(c *Ctx, r *Report) {
 		return
 	}
 	r.Check(len(bad) == 0, "no-new-global-state@library", "-", "no package-level variable beyond the pinned tree's is written after initialisation", strings.Join(bad, "; ")+": what one reader, store or call leaves there is seen by every other (a memo hands two readers one header whose roots either can edit; an answer depends on the calls made before it)")
+}
+
+// sliceBase: the value a slice expression was taken of (`g[:]`, `g[a:b]`), else v itself.
+func sliceBase(v ssa.Value) ssa.Value {
+	for i := 0; i < 4; i++ {
+		sl, ok := v.(*ssa.Slice)
+		if !ok {
+			return v
+		}
+		v = sl.X
+	}
+	return v
 }
 
 // addrRoot follows field/index addressing and loads of pointers back to the value they start from.
@@ -1534,4 +1612,84 @@ func codecOfType(c *Ctx, conc types.Type) int64 {
 		}
 	}
 	return got
+}
+
+// ---- R13t: Inspect reads the index codec and builds no index -------------------------------------
+
+func ruleR13t(c *Ctx, r *Report) {
+	fn, err := c.Func(modV2, "Reader", "Inspect")
+	if err != nil {
+		r.InfraFail("%v", err)
+		return
+	}
+	key := "index-codec-only@" + fnKey(fn)
+	n, codec, bad := 0, 0, ""
+	for _, g := range withAnon(fn) {
+		eachInstr(g, func(in ssa.Instruction) {
+			ci, ok := in.(ssa.CallInstruction)
+			if !ok {
+				return
+			}
+			cc := ci.Common()
+			n++
+			if cc.IsInvoke() {
+				if m := cc.Method.Name(); (m == "Unmarshal" || m == "UnmarshalLazyRead") && cc.Method.Pkg() != nil && cc.Method.Pkg().Path() == pkgIndex {
+					bad = fmt.Sprintf("Inspect calls Index.%s at %s", m, c.Pos(in.Pos()))
+				}
+				return
+			}
+			f := calleeFunc(cc)
+			switch {
+			case funcIs(f, pkgIndex, "", "ReadCodec"):
+				codec++
+			case funcIs(f, pkgIndex, "", "New"), funcIs(f, pkgIndex, "", "ReadFrom"), funcIs(f, pkgIndex, "", "ReadFromWithSize"):
+				bad = fmt.Sprintf("Inspect calls index.%s at %s", f.Name(), c.Pos(in.Pos()))
+			}
+		})
+	}
+	r.Count("calls in Inspect", n)
+	r.Count("index.ReadCodec calls in Inspect", codec)
+	r.Check(bad == "", key, c.Pos(fn.Pos()), "Inspect reads the index codec with index.ReadCodec and constructs no index", bad+": constructing or loading the index refuses what a scan accepts — a codec this build does not know, an index whose body is damaged — while the statement asks only that the codec be readable")
+}
+
+// ---- R05A: get-dag writes into a fresh file ---------------------------------------------------------
+
+func ruleR05A(c *Ctx, r *Report) {
+	fn, err := c.Func(pkgCmdCar, "", "writeCarV2")
+	if err != nil {
+		r.InfraFail("%v", err)
+		return
+	}
+	key := "fresh-output@" + fnKey(fn)
+	var open ssa.CallInstruction
+	var clears []ssa.CallInstruction
+	eachInstr(fn, func(in ssa.Instruction) {
+		ci, ok := in.(ssa.CallInstruction)
+		if !ok {
+			return
+		}
+		f := calleeFunc(ci.Common())
+		switch {
+		case funcIs(f, pkgBS, "", "OpenReadWrite"):
+			open = ci
+		case funcIs(f, "os", "", "Remove"), funcIs(f, "os", "", "RemoveAll"), funcIs(f, "os", "", "Truncate"), funcIs(f, "os", "", "Create"):
+			clears = append(clears, ci)
+		}
+	})
+	r.Count("calls that remove or empty a path in writeCarV2", len(clears))
+	if open == nil || len(open.Common().Args) == 0 {
+		r.Hold(key, c.Pos(fn.Pos()), "writeCarV2 does not open its output with blockstore.OpenReadWrite: nothing is resumed")
+		return
+	}
+	path := canon(open.Common().Args[0])
+	ok := false
+	for _, cl := range clears {
+		if len(cl.Common().Args) == 0 || canon(cl.Common().Args[0]) != path {
+			continue
+		}
+		if cl.Block() == open.Block() && instrBefore(cl, open) || cl.Block() != open.Block() && cl.Block().Dominates(open.Block()) {
+			ok = true
+		}
+	}
+	r.Check(ok, key, c.Pos(open.Pos()), "the output path is removed or emptied before blockstore.OpenReadWrite opens it", "nothing removes or empties the output path on the way to blockstore.OpenReadWrite at "+c.Pos(open.Pos())+": when the file exists OpenReadWrite resumes on it — with other roots it refuses, with the same roots the output holds the earlier run's sections too, and what `car get-dag` wrote is not the DAG that was asked for")
 }
